@@ -23,7 +23,7 @@ def model_gen(hint_models: list, is_random: bool) -> list:
     """Lean `gen` for each model hint -> canonical trees (None where the driver refuses)."""
     lines = [sexp(['gen', 'true' if is_random else 'false', hm]) for hm in hint_models]
     out = []
-    for line in lean_driver(lines, 'Bear'):
+    for line in lean_driver(lines, 'Bear', exe='beardriver'):
         v = parse_sexp(line)
         out.append(astcanon.canon(v[1]) if isinstance(v, list) and v[0] == 'ok' else None)
     return out
@@ -75,15 +75,21 @@ def code_tie(hints: list, reg: Registry, preds: dict, conf_names=('default', 'no
 
 
 def model_run(cases: list, reg: Registry) -> list:
-    """cases = [(is_random, draw, hint_model, obj_model)] -> [(sat, chk, evalresult)]"""
-    w = reg.world_sexp()
-    lines = [sexp(['run', w, 'true' if rnd else 'false', draw, hm, om]) for rnd, draw, hm, om in cases]
+    """cases = [(is_random, [draws], hint_model, obj_model)] -> [(sat, [(chk, evalresult) per draw])]"""
+    ws = sexp(reg.world_sexp())
+    cache: dict = {}
+
+    def sx(t):
+        k = id(t)
+        if k not in cache:
+            cache[k] = sexp(t)
+        return cache[k]
+    lines = [f'(run {ws} {"true" if rnd else "false"} {sexp(list(draws))} {sx(hm)} {sx(om)})' for rnd, draws, hm, om in cases]
     out = []
-    for line in lean_driver(lines, 'Bear'):
+    for line in lean_driver(lines, 'Bear', exe='beardriver'):
         v = parse_sexp(line)
         if v[0] != 'ok':
             out.append(None)
             continue
-        s, c, e = v[1]
-        out.append((s == 'true', c == 'true', e))
+        out.append((v[1][0] == 'true', [(c == 'true', e) for c, e in v[1][1:]]))
     return out
